@@ -172,6 +172,12 @@ class SupervisorProxy:
         except ValueError:
             self.logger.error(f'SupervisorProxy.execute: unexpected request={request_message[0]}')
             return
+        # NOTE: a request may still be queued when the instance becomes ISOLATED (the proxy is only stopped
+        #       at the next push): nothing is sent to an ISOLATED instance
+        if self.status.isolated:
+            self.logger.debug(f'SupervisorProxy.execute: {request_type.name} not sent to ISOLATED'
+                              f' Supvisors={self.status.usage_identifier}')
+            return
         # send message
         if request_type == RequestHeaders.CHECK_INSTANCE:
             self.check_instance()
